@@ -224,10 +224,10 @@ def seq_dump(s):
             [None if t is None else t._label for t in s._character_types], anns, ann_dump(s)]
 
 
-def matrix_dump(m, taxon_key=None):
+def matrix_dump(m, taxon_key=None, positional=True):
     tk = taxon_key or (lambda t: t._label)
     ns_taxa = list(m._taxon_namespace._taxa)
-    order = {id(t): i for i, t in enumerate(ns_taxa)}
+    order = {id(t): i for i, t in enumerate(ns_taxa)} if positional else {}
     rows = sorted(((order.get(id(t), 10 ** 6), tk(t), seq_dump(s)) for t, s in m._taxon_sequence_map.items()), key=lambda x: (x[0], repr(x[1])))
     subsets = []
     cs = m.character_subsets
